@@ -321,6 +321,59 @@ class TransformReadOnly(Case):
         return res
 
 
+class TransformFresh(Case):
+    """read-only calls on a FRESHLY BUILT transform (parameters symbolic, constants never set: NaN for LogSinh / Manly / BoxCox1*) may raise,
+    but never write parameters, constants or bounds"""
+    prop = 'C12'
+
+    def __init__(self, clsname):
+        self.cls = clsname
+        self.name = 'transform-fresh:%s' % clsname
+        self.params = dict(cls=clsname)
+        self.functions = ['hydrodiy.stat.transform.%s' % clsname]
+
+    def modules(self):
+        from hydrodiy.stat import transform, sutils
+        from hydrodiy.data import containers, dutils
+        return [transform, containers, dutils, sutils]
+
+    def inputs(self):
+        from harness.C01 import make, sym_vector
+        tr = make(self.cls, {})
+        P = sym_vector(tr.params, 'p')
+        # the data are concrete (the subject is the object's state, and helpers such as np.nanmax must see ordinary floats)
+        return dict(P=P, x=0.25)
+
+    def run(self, I):
+        from harness.C01 import make, set_params
+        tr = make(self.cls, {})
+        set_params(tr, I['P'], {})
+        def snap():
+            return dict(pv=list(tr.params.values), pmin=list(tr.params.mins), pmax=list(tr.params.maxs), pdef=list(tr.params.defaults),
+                        cv=list(tr.constants.values), cmin=list(tr.constants.mins), cmax=list(tr.constants.maxs))
+        before = snap()
+        x = np.array([[I['x'], I['x']]], dtype=float) if self.cls == 'Softmax' else np.array([I['x'], 2 * I['x']], dtype=float)
+        raised = []
+        for name, call in (('forward', lambda: tr.forward(x)), ('jacobian', lambda: tr.jacobian(x)), ('backward', lambda: tr.backward(x)), ('str', lambda: str(tr))):
+            try:
+                call()
+            except core.Unsupported:
+                raise
+            except Exception as e:
+                raised.append(name)
+        return dict(before=before, after=snap(), raised=raised)
+
+    def spec(self, I, O, err):
+        res = [('no-exception', err is None)]
+        if err is not None:
+            return res
+        b, a = O['before'], O['after']
+        for k, label in (('pv', 'parameter-values'), ('pmin', 'parameter-mins'), ('pmax', 'parameter-maxs'), ('pdef', 'parameter-defaults'),
+                         ('cv', 'constant-values'), ('cmin', 'constant-mins'), ('cmax', 'constant-maxs')):
+            res.append(('%s-unchanged-on-fresh-object' % label, same_list(a[k], b[k])))
+        return res
+
+
 def cases(tier):
     out = []
     for op in OPS:
@@ -334,6 +387,7 @@ def cases(tier):
     for n in ['Identity', 'Logit', 'Log', 'BoxCox2', 'BoxCox1lam', 'BoxCox1nu', 'BoxCox2sym', 'YeoJohnson', 'LogSinh', 'Reciprocal', 'Softmax',
               'Sinh', 'Manly']:
         out.append(TransformReadOnly(n))
+        out.append(TransformFresh(n))
     return out
 
 
